@@ -245,6 +245,10 @@ class Harness:
 
             async def payload(*args, **kwargs):
                 started(args, kwargs)
+                if spec.get("executor_job"):
+                    # the payload has a blocking job of its own running in the loop's default
+                    # executor (it outlives the payload: asyncio waits for it when the loop ends)
+                    asyncio.get_running_loop().run_in_executor(None, time.sleep, spec["executor_job"])
                 try:
                     while True:
                         await wait_cmd()
